@@ -140,6 +140,12 @@ def run(ctx):
                 extra = {}
                 if s_kind == "lognormal":
                     extra["pars"] = {"s": xu.with_unit(pm.LogNormal("s", s_mu, s_sd), u.km / u.s)}
+                # the eccentricity prior: the default (Kipping13Global) or one of the other exported Beta priors given by the user
+                e_kind = ["default", "default", "short", "long"][(i + ctx.shard) % 4]
+                e_ab = {"default": (0.867, 3.03), "short": (0.697, 3.27), "long": (1.12, 3.09)}[e_kind]
+                if e_kind != "default":
+                    extra.setdefault("pars", {})["e"] = xu.with_unit({"short": Kipping13Short, "long": Kipping13Long}[e_kind]("e"), u.one)
+                desc["e_prior"] = e_kind
                 prior = JokerPrior.default(P_min=gen.conv(Pmin_d, "d", pu) * gen.U(pu), P_max=gen.conv(Pmax_d, "d", pu) * gen.U(pu),
                                            sigma_K0=sK0 * gen.U(ku), P0=P0 * gen.U(P0u),
                                            sigma_v=[sv * u.km / u.s / u.day ** k for k, sv in enumerate(svs)],
@@ -166,7 +172,7 @@ def run(ctx):
                               % (nd, n_unique), desc)
             Pd = np.asarray(smp["P"].to_value(u.day), dtype=float)
             ev = np.asarray(smp["e"], dtype=float)
-            cfgcls = (pu, poly, noff, gl, ku, s_kind)
+            cfgcls = (pu, poly, noff, gl, ku, s_kind, e_kind)
             # support
             ctx.evaluations += 1
             ctx.distinct.add(repr(("support",) + cfgcls))
@@ -174,7 +180,7 @@ def run(ctx):
                 ctx.violation("draw-outside-support", "prior.sample: P in [%g,%g] d (prior [%g,%g]), e in [%g,%g]"
                               % (Pd.min(), Pd.max(), Pmin_d, Pmax_d, ev.min(), ev.max()), desc)
             tests = [("P", np.log(Pd), stats.uniform(loc=math.log(Pmin_d), scale=math.log(Pmax_d / Pmin_d)).cdf),
-                     ("e", ev, stats.beta(0.867, 3.03).cdf)]
+                     ("e", ev, stats.beta(*e_ab).cdf)]
             for nm in ("omega", "M0"):
                 ang = np.asarray(smp[nm].to_value(u.rad), dtype=float)
                 lo = math.floor(ang.min() / math.pi) * math.pi if ang.min() < 0 else 0.0
@@ -208,7 +214,7 @@ def run(ctx):
             # ln_prior column vs analytic joint density
             lp = np.asarray(smp["ln_prior"], dtype=float)
             Pu_vals = np.asarray(smp["P"].value, dtype=float)          # density is declared in the prior's own unit
-            ana = -np.log(Pu_vals) + stats.beta(0.867, 3.03).logpdf(ev)
+            ana = -np.log(Pu_vals) + stats.beta(*e_ab).logpdf(ev)
             if s_kind == "lognormal":
                 ana = ana + stats.lognorm(s=s_sd, scale=math.exp(s_mu)).logpdf(sv_)
             if gl:
